@@ -88,7 +88,7 @@ prop("C06", [
     "rejection is never demanded (the property speaks about accepted rules); whatever is accepted must decode to exactly what was asked",
     "flags route: a value never starts with '=' or an operator character, keys/syscalls contain no comma, no whitespace at the ends of values",
     "'-S all' stands alone"],
-   nontrivial_classes=["accepted", "route-struct", "route-flags", "watch", "prepend"] + OPS + CLASSES)
+   nontrivial_classes=["accepted", "route-struct", "route-flags", "watch", "prepend", "accepted-with-60-or-more-filters"] + OPS + CLASSES)
 
 prop("C07", [
     S(RULES, "^TestC07Regress$", kind="plain"),
